@@ -446,7 +446,7 @@ Proof.
   eexists _, _. split; [reflexivity|].
   match goal with |- SndInv _ _ _ ?t3 /\ _ =>
     destruct (Hfin t3) as (C1 & C2 & C3 & C4);
-      [destruct (map (fun h => mkSeg h []) (oneshot t) ++ map t_seg (filter t_needs (retx t1))); auto|]
+      [destruct (map t_seg (filter t_needs (retx t1))); auto|]
   end.
   split; [exact C1|]. split; [exact C2|]. split; [exact C3|]. rewrite C4. exact Hsegs.
 Qed.
